@@ -73,7 +73,7 @@ impl<'a> Reader<'a> {
     }
 
     pub fn bump(&mut self) {
-        if self.current != EOF {
+        if !self.is_eof() {
             self.current_buffer_byte_len += self.current.len_utf8();
             self.prev = self.current;
             self.current = self.next;
@@ -98,8 +98,10 @@ impl<'a> Reader<'a> {
         reader
     }
 
+    /// End of input is decided by position, not by the `'\0'` sentinel: a NUL character inside the
+    /// text is an ordinary character (`current_char()` still returns `'\0'` once the end is reached).
     pub fn is_eof(&self) -> bool {
-        self.current == EOF
+        self.current_buffer_byte_pos + self.current_buffer_byte_len >= self.text.len()
     }
 
     pub fn is_start_of_line(&self) -> bool {
@@ -235,6 +237,21 @@ mod tests {
         assert!(!reader.is_eof());
         reader.bump();
         assert!(reader.is_eof());
+    }
+
+    #[test]
+    fn test_nul_is_not_eof() {
+        let text = "a\0b";
+        let mut reader = Reader::new(text);
+        reader.reset_buff();
+        reader.bump();
+        assert_eq!(reader.current_char(), '\0');
+        assert!(!reader.is_eof());
+        reader.bump();
+        assert_eq!(reader.current_char(), 'b');
+        reader.bump();
+        assert!(reader.is_eof());
+        assert_eq!(reader.current_text(), text);
     }
 
     #[test]
